@@ -206,6 +206,16 @@ theorem blockStream_new {σ : Type} {w : Nat} (c : BlockCore σ w) (hN : 0 < c.l
   unfold blockStream absStream
   rw [Nat.add_div_left _ hN, Nat.add_mod_left]
 
+/-- `fill_bytes(n)` of the abstract machine is complete: exactly `n` bytes (so, with the
+    refinement theorems, the model's loop fuel `n + 1` always suffices) -/
+theorem fill_complete32 (W : Nat → U32) (p n : Nat) :
+    ((wordBytes U32.toLE W p ((n + 3) / 4)).take n).length = n := by
+  rw [List.length_take, wordBytes_length U32.toLE W 4 (fun _ => rfl)]; omega
+
+theorem fill_complete64 (W : Nat → U64) (p n : Nat) :
+    ((wordBytes U64.toLE W p ((n + 7) / 8)).take n).length = n := by
+  rw [List.length_take, wordBytes_length U64.toLE W 8 (fun _ => rfl)]; omega
+
 /-! ### Hc128Rng -/
 
 theorem opBlock32_hc128 (st : Hc128.Rng) (n : Nat) :
